@@ -295,9 +295,9 @@ theorem apply_begin (c : CS) (h : c.fail = false) : c.apply .beginStep = c.emit 
 theorem apply_end (c : CS) (h : c.fail = false) : c.apply .endStep = c.flush.emit .endStep := by
   unfold CS.apply; simp [h]
 
-theorem K.init (ext : Bool) : K ({ ext := ext } : CS) [] [] := ⟨by simp, by simp [show ({ ext := ext } : CS).output = [] from rfl], rfl⟩
+theorem K.init (ext : Bool) : K ({ ext := ext } : CS) [] [] := ⟨by simp, by simp [show ({ ext := ext } : CS).output = [] from rfl], rfl, fun _ _ h => h.elim⟩
 
-theorem K.emit {c : CS} {O defs} (hk : K c O defs) (hi : Inv (abs c)) (x : Call) (hx : outOf x = none) : K (c.emit x) O defs :=
+theorem K.emit {c : CS} {O defs base E} (hk : K c O defs base E) (hi : Inv (abs c)) (x : Call) (hx : outOf x = none) : K (c.emit x) O defs base E :=
   hk.of (.refl _) hi rfl (by simp [CS.emit, outsOf_append, outsOf, hx]) (fun d hd => hd)
 
 /-- the state just before `endStep` -/
